@@ -439,8 +439,11 @@ def _data_parse_csv(args, unused_options):
             return None
         lines.extend(arg.splitlines())
 
-    # Parse the CSV
-    data = list(csv.DictReader(lines, skipinitialspace=True))
+    # Parse the CSV - cells beyond the header's fields are ignored
+    data = [
+        {field: value for field, value in row.items() if field is not None}
+        for row in csv.DictReader(lines, skipinitialspace=True)
+    ]
 
     # Validate the data (as CSV)
     validate_data(data, True)
